@@ -1481,6 +1481,17 @@ func main() {
 		migrationStream(o, res, r.Fork("migrate"), srcs, addRef)
 	}
 
+	// ------------------------------------------------------------------ R4: expressions as deep as Parse allows
+	depthLimitOracle(res)
+
 	refSh.Flush()
 	res.Write(o)
+}
+
+func ellipsis(s string, n int) string {
+	rs := []rune(s)
+	if len(rs) <= n {
+		return s
+	}
+	return string(rs[:n]) + "..."
 }
